@@ -304,6 +304,13 @@ def Ctx.handle (v : Variant) (c : Ctx) (r : Resp) : Ctx :=
   let c1 := Ctx.absorb v { c with expect := c.expect - 1 } r
   { c1 with done := c1.done || decide (c1.expect ≤ 0) || c1.err.isSome }
 
+/-- `baseTaskContext.Complete(err)`: called by the search pipeline's completion callback once the
+plan is made and every request is sent (`err = nil`), or with the planning/sending error. It
+OVERWRITES `ctx.err`, then `tryClose`. -/
+def Ctx.complete (c : Ctx) (e : Option ErrKind) : Ctx :=
+  let c1 := { c with err := e }
+  { c1 with done := c1.done || decide (c1.expect ≤ 0) || c1.err.isSome }
+
 def Ctx.handleAll (v : Variant) (c : Ctx) (rs : List Resp) : Ctx := rs.foldl (Ctx.handle v) c
 
 /-- `IntermediateMetricContext.makeTaskResponse` (specs in map order: here insertion order) -/
